@@ -289,6 +289,38 @@ func isTopicSymbol(s string) bool {
 	return strings.HasPrefix(s, "ghost.") || strings.HasPrefix(s, "op$") || strings.HasPrefix(s, "app.") || strings.HasPrefix(s, "sorted") || strings.HasPrefix(s, "copied")
 }
 
+// scriptCone renders the obligation with only the hypotheses that share a symbol with the goal
+// (allocation-counter symbols aside, which are always kept with the ground facts about them).
+// Dropping hypotheses only weakens them: a proof of this script is a proof of the obligation.
+func (o *Obligation) scriptCone(global []*Term) string {
+	rel := map[string]bool{}
+	termSymbols(o.Goal, rel)
+	var facts []*Term
+	all := append(append([]*Term(nil), global...), o.Facts...)
+	for _, f := range all {
+		syms := map[string]bool{}
+		termSymbols(f, syms)
+		if len(syms) == 0 {
+			// only counters / literals
+			facts = append(facts, f)
+			continue
+		}
+		hit := false
+		for sy := range syms {
+			if rel[sy] {
+				hit = true
+				break
+			}
+		}
+		if hit && (len(syms) <= 12 || !hasQuantifier(f)) {
+			facts = append(facts, f)
+		} else if hit {
+			facts = append(facts, f)
+		}
+	}
+	return o.render(facts)
+}
+
 // scriptFiltered renders the obligation with relevance-filtered hypotheses.
 func (o *Obligation) scriptFiltered(global []*Term) string {
 	facts := append([]*Term(nil), global...)
